@@ -173,6 +173,22 @@ def replay(chk, behs, rng, fire_every):
                             chk.violation("C17.FireRaised", {**k, "mode": mode}, {"beh": b, "exc": o2[1]})
                         elif abs(o2[1] - float(want)) > 1e-8 * float(want):
                             chk.violation("C17.LaunchVelocity", {**k, "mode": mode}, {"beh": b, "got": o2[1], "want": float(want)})
+        epilogue(chk, b, ammo, T_, VU, vu, key0, sig)
+
+
+def epilogue(chk, b, ammo, T_, VU, vu, key0, sig):
+    """after the history: switched on, the ammunition reports the spec's final line at every temperature"""
+    ammo.use_powder_sensitivity = True
+    for T, res in b.get("final", []):
+        want = Fraction(res[0] * res[1], res[2]) * UA.convert("MPS", vu, 1)
+        o = impl.outcome(lambda: ammo.get_velocity_for_temp(T_(T)) >> VU)
+        chk.count(1)
+        chk.stratum("epilogue_switched_on")
+        if o[0] != "ok":
+            chk.violation("C17.QueryRaised", {**key0, "Tq": T, "flag": True, "history": "/".join(sig) + "/(on)"}, {"beh": b, "exc": o[1]})
+        elif not close(o[1], want):
+            chk.violation("C17.WrongVelocity", {**key0, "Tq": T, "flag": True, "history": "/".join(sig) + "/(on)"},
+                          {"beh": b, "got": o[1], "want": float(want)})
 
 
 def run(chk: core.Check, replay_path=None, **_):
@@ -208,7 +224,7 @@ def run(chk: core.Check, replay_path=None, **_):
     chk.traces += len(behs)
     for b in behs[:: max(1, len(behs) // 4)][:4]:
         chk.sample(b)
-    chk.require_strata(["fire_held_shot_after_every_operation", "display_and_preferences_perturbed", "bare_numbers", "calibration_rejected", "calibrated_faster", "calibrated_slower", "calibrated_warmer", "calibrated_colder",
+    chk.require_strata(["epilogue_switched_on", "fire_held_shot_after_every_operation", "display_and_preferences_perturbed", "bare_numbers", "calibration_rejected", "calibrated_faster", "calibrated_slower", "calibrated_warmer", "calibrated_colder",
                         "query_enabled", "query_disabled", "fire_air", "fire_powder_t"])
     chk.rule.append("every behaviour of %d operations of the Powder state machine over v in %s m/s, T in %s C (TLC Gen_Powder), "
                     "temperatures/velocities passed in rotating units; non-trivial = an enabled query whose answer differs "
